@@ -359,6 +359,9 @@ var scenarioFamilies = map[int]func(r *rng) *cluster{
 	7: scStaleTailSnapshot,
 	8: scConverge,
 	9: scGrowSingle,
+	10: scVerify,
+	11: scBarrier,
+	12: scRestore,
 }
 
 type scResult struct {
@@ -835,5 +838,161 @@ func scGrowSingle(r *rng) *cluster {
 	c.net.setBoth(1, c.spareIDs[0], linkUp)
 	c.call(1, "apply", 9101, 0).wait(300 * time.Millisecond)
 	c.settle(300 * time.Millisecond)
+	return c
+}
+
+// ---------------------------------------------------------------- C09: VerifyLeader
+func scVerify(r *rng) *cluster {
+	nv := 3 + 2*r.intn(2)
+	nnv := 1 + r.intn(2)
+	c := basicCluster(clusterOpts{voters: nv, nonvoters: nnv, trailing: 100, maxAppend: 4})
+	if !c.elect(pick(r, c.ids[:nv]), time.Second) {
+		return c
+	}
+	l := c.leader()
+	c.call(l.id, "apply", 9200, 0).wait(200 * time.Millisecond)
+	c.settle(200 * time.Millisecond)
+	// healthy: must succeed
+	c.call(l.id, "verify", 0, 0).wait(300 * time.Millisecond)
+	// cut the leader off from k voters (k from "one" to "all"); non-voters stay reachable
+	var others []uint64
+	for _, id := range c.ids[:nv] {
+		if id != l.id {
+			others = append(others, id)
+		}
+	}
+	for i := range others {
+		j := r.intn(i + 1)
+		others[i], others[j] = others[j], others[i]
+	}
+	k := 1 + r.intn(len(others))
+	mode := r.intn(3)
+	for _, id := range others[:k] {
+		switch mode {
+		case 0:
+			c.net.setBoth(l.id, id, linkDown)
+		case 1:
+			c.net.set(l.id, id, linkLoseResp) // the follower hears the leader, the answers are lost
+		case 2:
+			c.net.set(l.id, id, linkHoldResp) // answers held, released after the call returned
+		}
+	}
+	if r.chance(1, 3) {
+		// the others elect a new leader before the call
+		c.electAmong(r, others, others[0])
+	}
+	cc := c.call(l.id, "verify", 0, 0)
+	cc.wait(150 * time.Millisecond)
+	for _, id := range others[:k] {
+		if mode == 2 {
+			for i := 0; i < 4; i++ {
+				c.net.release(l.id, id, true)
+			}
+		}
+	}
+	cc.wait(200 * time.Millisecond)
+	// a second call while answers of earlier heartbeats may still be in flight
+	if mode == 2 {
+		c2 := c.call(l.id, "verify", 0, 0)
+		time.Sleep(time.Millisecond)
+		for _, id := range others[:k] {
+			for i := 0; i < 4; i++ {
+				c.net.release(l.id, id, true)
+			}
+		}
+		c2.wait(200 * time.Millisecond)
+	}
+	c.heal()
+	for _, id := range others {
+		for i := 0; i < 8; i++ {
+			c.net.release(l.id, id, true)
+		}
+	}
+	time.Sleep(3 * time.Millisecond)
+	return c
+}
+
+// ---------------------------------------------------------------- C08: barrier behind a slow FSM, definite failures
+func scBarrier(r *rng) *cluster {
+	c := basicCluster(clusterOpts{voters: 1 + 2*r.intn(2), trailing: 100, maxAppend: 1 + r.intn(4),
+		fsmDelay: time.Duration(200+r.intn(1500)) * time.Microsecond, batchApply: r.chance(1, 2)})
+	if !c.elect(1, time.Second) {
+		return c
+	}
+	pay := uint64(9300)
+	var calls []*ccall
+	for round := 0; round < 2+r.intn(3); round++ {
+		n := 1 + r.intn(6)
+		for i := 0; i < n; i++ {
+			pay++
+			calls = append(calls, c.call(1, "apply", pay, 0))
+		}
+		// let the entries commit (the FSM is still busy), then ask for a barrier
+		waitFor(100*time.Millisecond, func() bool { return c.nodes[1].r.CommitIndex() >= c.nodes[1].r.LastIndex() })
+		b := c.call(1, "barrier", 0, 0)
+		b.wait(500 * time.Millisecond)
+		if r.chance(1, 2) {
+			pay++
+			calls = append(calls, c.call(1, "apply", pay, 0))
+		}
+	}
+	for _, cc := range calls {
+		cc.wait(300 * time.Millisecond)
+	}
+	c.settle(300 * time.Millisecond)
+	return c
+}
+
+// ---------------------------------------------------------------- C20: user Restore
+func scRestore(r *rng) *cluster {
+	c := basicCluster(clusterOpts{voters: 3, trailing: []uint64{0, 100}[r.intn(2)], maxAppend: 1 + r.intn(4), monotonic: r.chance(1, 2), spares: 1})
+	if !c.elect(1, time.Second) {
+		return c
+	}
+	pay := uint64(9500)
+	for i := 0; i < 2+r.intn(4); i++ {
+		pay++
+		c.call(1, "apply", pay, 0).wait(200 * time.Millisecond)
+	}
+	c.settle(200 * time.Millisecond)
+	// a lagging follower
+	lag := uint64(2 + r.intn(2))
+	if r.chance(1, 2) {
+		c.net.setBoth(1, lag, linkDown)
+	}
+	// writes in flight while the restore is requested: hold the answers of one follower so they stay uncommitted
+	other := uint64(5) - lag
+	if r.chance(1, 2) {
+		c.net.set(1, other, linkHoldResp)
+	}
+	var pending []*ccall
+	for i := 0; i < r.intn(4); i++ {
+		pay++
+		pending = append(pending, c.call(1, "apply", pay, 0))
+	}
+	if r.chance(1, 4) {
+		pending = append(pending, c.call(1, "addvoter", 0, c.spareIDs[0]))
+	}
+	time.Sleep(time.Millisecond)
+	last := c.nodes[1].r.LastIndex()
+	idx := []uint64{0, 1, last - 1, last, last + 1, last + 10}[r.intn(6)]
+	pay += 10
+	rs := c.call(1, "restore", pay, idx)
+	// let the restore's own no-op commit
+	time.Sleep(2 * time.Millisecond)
+	c.net.set(1, other, linkUp)
+	for i := 0; i < 16; i++ {
+		c.net.release(1, other, true)
+	}
+	rs.wait(500 * time.Millisecond)
+	for i := 0; i < 1+r.intn(3); i++ {
+		pay++
+		c.call(1, "apply", pay+100, 0).wait(200 * time.Millisecond)
+	}
+	c.heal()
+	for _, p := range pending {
+		p.wait(200 * time.Millisecond)
+	}
+	c.settle(600 * time.Millisecond)
 	return c
 }
